@@ -1150,7 +1150,15 @@ func (c *compiler) evalBlockStatement(node *ast.BlockStatement) (interface{}, er
 	return res, nil
 }
 
-func (c *compiler) evalStatement(node ast.Statement) (interface{}, error) {
+func (c *compiler) evalStatement(node ast.Statement) (res interface{}, err error) {
+	// the statement blamed for an error is the innermost one that failed: once a
+	// statement has completed, its enclosing statement is current again
+	outer := c.curStmt
+	defer func() {
+		if err == nil {
+			c.curStmt = outer
+		}
+	}()
 	c.curStmt = node
 
 	switch t := node.(type) {
